@@ -54,8 +54,15 @@ mpf_out_str (FILE *stream, int base, size_t n_digits, mpf_srcptr op)
 
   if (base == 0)
     base = 10;
-  if (n_digits == 0)
-    MPF_SIGNIFICANT_DIGITS (n_digits, ABS (base), op->_mp_prec);	/* base may be negative (upper case) */
+  {
+    /* mpf_get_str never produces more digits than the precision carries:
+       clamp before allocating, so that a huge n_digits neither wraps
+       n_digits + 2 nor allocates a buffer that stays unused */
+    size_t max_digits;
+    MPF_SIGNIFICANT_DIGITS (max_digits, ABS (base), op->_mp_prec);	/* base may be negative (upper case) */
+    if (n_digits == 0 || n_digits > max_digits)
+      n_digits = max_digits;
+  }
 
   if (stream == 0)
     stream = stdout;
